@@ -302,6 +302,12 @@ def run_cli_shard(d):
                         whole_s, whole_q = (refops.revcomp(s), q[::-1]) if use else (s, q)
                         ok = len(row) >= 12 and row[4] + row[5] + row[6] == whole_s and row[8] + row[9] + row[10] == whole_q and \
                             row[11] == ("1" if use else "0") and whole_s[int(row[2]):int(row[3])] == row[5]
+                        m0 = em[0]
+                        if ok and hasattr(m0, "rstart") and not hasattr(m0, "front_match"):
+                            # where the match lies in the read as read (the base removed by -u 1 is at the 3' end after reverse
+                            # complementing, at the 5' end otherwise)
+                            shift = 0 if use else cutn
+                            ok = (int(row[2]), int(row[3])) == (m0.rstart + shift, m0.rstop + shift)
                         if not ok:
                             V.append(("cli:info", "the info-file row of the read does not describe it in the chosen orientation",
                                       dict(cfg, read=s, row=row, chosen="reverse complement" if use else "as given")))
